@@ -52,6 +52,10 @@ def gen_case(rnd, tier: str, i: Any) -> Dict[str, Any]:
                                   post_ops=rnd.choice([0, 1, 2]), step_gap=rnd.choice([(0,), (0, 1, 1, 7), (7, 30)]))
         tr = gen_sim.gen_trace(rnd, **p)
         gen_sim.drop_events(rnd, tr, p_launch=rnd.choice([0, 0, 0.15]), p_kernel=rnd.choice([0, 0, 0.15]))
+        if rnd.random() < 0.2:
+            # a rank without any device activity (CPU-only rank, or the device records were not collected)
+            ev = tr["traceEvents"]
+            tr["traceEvents"] = ev[:1] + [e for e in ev[1:] if not (e.get("ph") == "X" and e.get("cat") in ("kernel", "gpu_memcpy", "gpu_memset", "cuda_sync"))]
         files[f"rank{r}.json"] = tr
     return {"files": files, "cfg": {"inc_last": rnd.random() < 0.45, "mp": rnd.random() < 0.3}, "ragged_steps": ragged}
 
